@@ -425,7 +425,9 @@ Proof.
   intros I Hk Hb. unfold arr_setitem.
   assert (P0 : exists l0 m0,
      match m_pend m with
-     | Some _ => if v_set_flush current then arr_flush m else ([], m, false)
+     | Some _ => if v_set_flush current then arr_flush m
+                 else if v_set_hdr current then (let '(l, m') := arr_write_header m in (l, m', false))
+                 else ([], m, false)
      | None => ([], m, false)
      end = (l0, m0, false) /\ InvA m0 (lexec o i l0 f) L /\ m_pend m0 = None /\ m_nb m0 = m_nb m /\
      (forall H, Safe H f -> In (flat L) H -> SafeAll o H i l0 f)).
@@ -603,6 +605,18 @@ Proof.
   - discriminate.
 Qed.
 
+(** a query ([len(store)], [i in store], [len(store.array)]) issues no file operation and leaves
+    the object as it is *)
+Lemma step_query m f L i :
+  InvA m f L -> m_nb m = length L -> StepOK m f L i Query.
+Proof.
+  intros I N. unfold StepOK. rewrite hstep_simple by reflexivity. cbn [expand spec_step].
+  cbn [r_mem r_file r_lops r_err lexec]. split; [|split; [reflexivity|split]].
+  - left. now split.
+  - intros Hi. split; [exact Hi|]. intros H Sf _. now apply SafeAll_nil, Safe_mono with H; [apply incl_tl|].
+  - discriminate.
+Qed.
+
 Lemma step_reopen m f L i :
   InvA m f L -> m_nb m = length L -> StepOK m f L i Reopen.
 Proof.
@@ -670,7 +684,7 @@ Proof.
                r_err h = false /\ f_buf (r_file h) = [] /\ loads (f_disk (r_file h)) = Some (flat []))).
   { intros h L' Hm Hf HL Hx. split; [right; auto|]. split; [exact Hx|]. split; [discriminate|].
     intros _ Hi. rewrite Hm in Hi. discriminate. }
-  destruct op as [k g b| k | | | | | | k | k]; simpl in W.
+  destruct op as [k g b| k | | | | | | k | k |]; simpl in W.
   - destruct W as [-> Hb]. rewrite hstep_simple by reflexivity. cbn [expand spec_step]. unfold st_set.
     cbn [fresh_mem m_nb m_rows length].
     destruct k as [|k].
@@ -702,6 +716,7 @@ Proof.
     split; [right; auto|]. split; [now rewrite take_commit_nil|]. split; [discriminate|]. intros _ Hf; discriminate.
   - contradiction.
   - rewrite hstep_simple by reflexivity. apply NI; auto.
+  - rewrite hstep_simple by reflexivity. apply NI; auto.
 Qed.
 
 Lemma hstep_ok m f L i op : Inv m f L -> wf_op op -> StepOK m f L i op.
@@ -717,6 +732,7 @@ Proof.
   - now apply step_pickle.
   - contradiction.
   - now apply step_read.
+  - now apply step_query.
 Qed.
 
 (** ** prefix stores: [n_batches] may be smaller than the number of batches in the file ([Open k]).
@@ -776,7 +792,7 @@ Lemma pstep_init m f P n i op :
   PInv (r_mem (hstep current bs o i m f op)) (r_file (hstep current bs o i m f op)) (pspec_step (P, n) op).
 Proof.
   intros I N Hn W. pose proof (ia_rows _ _ _ I) as R.
-  destruct op as [k g b| k | | | | | | k | k]; cbn [wfp_op fst] in W.
+  destruct op as [k g b| k | | | | | | k | k |]; cbn [wfp_op fst] in W.
   - (* store[k] = b *)
     destruct W as [-> Hb]. rewrite hstep_simple by reflexivity. cbn [expand pspec_step]. unfold st_set. rewrite N, R.
     destruct (n <? k) eqn:K1.
@@ -858,12 +874,15 @@ Proof.
     rewrite hstep_simple by reflexivity. cbn [expand pspec_step]. unfold st_read.
     destruct (memmap_ok m f P i I) as (l & m1 & E & I1 & N1 & _). rewrite E.
     cbn [r_mem r_file r_lops r_err]. left. cbn [fst snd]. split; [exact I1|]. split; [lia | exact Hn].
+  - (* query *)
+    rewrite hstep_simple by reflexivity. cbn [expand pspec_step r_mem r_file r_lops r_err lexec].
+    left. cbn [fst snd]. auto.
 Qed.
 
 Lemma pspec_fresh op : is_open op = false ->
   pspec_step ([], 0) op = (spec_step [] op, length (spec_step [] op)).
 Proof.
-  destruct op as [k g b| k | | | | | | k | k]; intros IO; try reflexivity; try discriminate.
+  destruct op as [k g b| k | | | | | | k | k |]; intros IO; try reflexivity; try discriminate.
   destruct k; reflexivity.
 Qed.
 
@@ -1058,6 +1077,45 @@ Proof.
     + destruct (FROM_H3 c Hc) as (t & Ht & Et). exists t. split; [simpl; lia | exact Et].
 Qed.
 
+(** (4b) queries.  [Read k] ([store[k]]) and [Query] ([len(store)], [k in store], [len(store.array)])
+    anywhere in a history do not raise on an initialised store, leave what the store reports and
+    the file as the process sees it unchanged; [Query] leaves file object and store object
+    untouched; the only effect of [Read] is the creation of the memmap, which hands everything
+    pending to the OS (nothing stays in the buffer) -- that is why it matters for the order in
+    which header and data become durable, and why (4) quantifies over histories containing reads *)
+Definition is_query (op : hop) : bool := match op with Read _ | Query => true | _ => false end.
+
+Theorem queries_preserve bs o ops q : 0 < bs -> wf bs ops -> is_query q = true ->
+  forall m f i, start current bs o ops = (m, f, i) ->
+  let h := hstep current bs o i m f q in
+  view bs (r_mem h) (r_file h) = view bs m f /\ full (r_file h) = full f /\
+  (m_init m = true -> r_err h = false) /\
+  (q = Query -> r_file h = f /\ r_mem h = m /\ r_lops h = []) /\
+  (forall k, q = Read k -> m_init m = true -> m_mmap (r_mem h) = true /\ (m_mmap m = false -> f_buf (r_file h) = [])).
+Proof.
+  intros Hb W Q m f i E. unfold start in E.
+  pose proof (run_inv bs o ops Hb _ _ _ _ (Inv_fresh bs) W _ _ _ E) as I0.
+  assert (Wq : wf_op bs q) by (destruct q; try discriminate; exact I).
+  destruct (hstep_ok bs Hb o m f _ i q I0 Wq) as (I1 & _ & _ & _).
+  assert (Sq : spec_step (fold_left spec_step ops []) q = fold_left spec_step ops []) by (destruct q; try discriminate; reflexivity).
+  rewrite Sq in I1. cbv zeta.
+  split; [now rewrite (view_inv _ _ _ _ I0), (view_inv _ _ _ _ I1)|].
+  destruct q as [| | | | | | | |k|]; try discriminate.
+  - (* Read *)
+    cbn [hstep expand]. unfold st_read, arr_memmap, initialized.
+    destruct (m_init m) eqn:Hi; cbn [andb negb].
+    + destruct I0 as [[Ia Na]|(-> & _)]; [|discriminate]. rewrite (ia_open _ _ _ _ Ia). cbn [negb].
+      destruct (m_mmap m) eqn:MM; cbn [r_file r_lops r_err r_mem lexec].
+      * split; [reflexivity|]. split; [reflexivity|]. split; [discriminate|]. intros k' _ _. split; [exact MM | discriminate].
+      * rewrite lstep_seekend. split; [apply full_flush_all|]. split; [reflexivity|]. split; [discriminate|].
+        intros k' _ _. split; reflexivity.
+    + cbn [err r_file r_lops r_err r_mem lexec]. split; [reflexivity|]. split; [discriminate|]. split; [discriminate|].
+      intros k' _ Hf. discriminate.
+  - (* Query *)
+    cbn [hstep expand r_file r_lops r_err r_mem lexec]. split; [reflexivity|]. split; [reflexivity|].
+    split; [auto|]. intros k' Hk. discriminate.
+Qed.
+
 (** * Prefix stores (histories with [Open k]) *)
 
 Fixpoint wfp (bs : nat) (s : pstate) (ops : list hop) : Prop :=
@@ -1111,7 +1169,7 @@ Lemma visible_step s op : snd s <= length (fst s) -> is_open op = false -> op <>
 Proof.
   destruct s as [P n]. cbn [fst snd]. intros Hn IO NR. unfold visible.
   assert (LV : length (firstn n P) = n) by (apply firstn_length_le; lia).
-  destruct op as [k g b| k | | | | | | k | k]; cbn [pspec_step spec_step fst snd]; try reflexivity; try discriminate; try congruence.
+  destruct op as [k g b| k | | | | | | k | k |]; cbn [pspec_step spec_step fst snd]; try reflexivity; try discriminate; try congruence.
   - rewrite LV. destruct (n <? k) eqn:K1.
     + apply Nat.ltb_lt in K1. cbn [fst snd].
       replace (k =? n) with false by (symmetry; apply Nat.eqb_neq; lia).
@@ -1133,7 +1191,7 @@ Lemma pspec_step_le bs s op : snd s <= length (fst s) -> wfp_op bs s op ->
   snd (pspec_step s op) <= length (fst (pspec_step s op)).
 Proof.
   destruct s as [P n]. cbn [fst snd]. intros Hn W.
-  destruct op as [k g b| k | | | | | | k | k]; cbn [pspec_step wfp_op fst snd] in *; try lia.
+  destruct op as [k g b| k | | | | | | k | k |]; cbn [pspec_step wfp_op fst snd] in *; try lia.
   - destruct (n <? k) eqn:K1; cbn [fst snd]; [lia|]. apply Nat.ltb_ge in K1.
     destruct (k =? length P) eqn:K2; cbn [fst snd].
     + rewrite app_length. simpl. lia.
@@ -1147,7 +1205,7 @@ Qed.
 Lemma pspec_full L op : is_open op = false ->
   pspec_step (L, length L) op = (spec_step L op, length (spec_step L op)).
 Proof.
-  intros IO. destruct op as [k g b| k | | | | | | k | k]; cbn [pspec_step spec_step]; try reflexivity; try discriminate.
+  intros IO. destruct op as [k g b| k | | | | | | k | k |]; cbn [pspec_step spec_step]; try reflexivity; try discriminate.
   - destruct (length L <? k) eqn:K1.
     + apply Nat.ltb_lt in K1. replace (k =? length L) with false by (symmetry; apply Nat.eqb_neq; lia).
       replace (k <? length L) with false by (symmetry; apply Nat.ltb_ge; lia). reflexivity.
